@@ -10,8 +10,11 @@ Open Scope list_scope.
 (* a callable object of the context: identity plus the two marker attributes the default
    predicate reads (unsafe_callable set by @unsafe, alters_data by the Django convention);
    [c_format]: the object is a bound str.format / str.format_map method (of a str or Markup),
-   wherever it came from — also when the host put it into the render data. *)
-Record callable := mkCallable { c_id : nat; c_unsafe : bool; c_alters : bool; c_format : bool }.
+   wherever it came from — also when the host put it into the render data;
+   [c_call_unsafe] / [c_call_alters]: the same two markers found on type(obj).__call__ (a callable
+   instance whose class decorates __call__). *)
+Record callable := mkCallable { c_id : nat; c_unsafe : bool; c_alters : bool; c_format : bool;
+                                c_call_unsafe : bool; c_call_alters : bool }.
 
 Inductive cval :=
   | CVData (n : nat)
@@ -20,7 +23,8 @@ Inductive cval :=
   | CVUndef.
 
 (* SandboxedEnvironment.is_safe_callable(obj) — the default predicate *)
-Definition is_safe_callable_default (c : callable) : bool := negb (c_unsafe c || c_alters c).
+Definition is_safe_callable_default (c : callable) : bool :=
+  negb (c_unsafe c || c_alters c || c_call_unsafe c || c_call_alters c).
 
 Inductive event :=
   | EvCheck (c : callable) (verdict : bool)     (* is_safe_callable(c) was evaluated *)
@@ -121,3 +125,8 @@ End Eval.
 (* extraction interface: the gate alone, with the default or a table-given policy *)
 Definition gate_events (policy_verdict : bool) (c : callable) : res :=
   sandbox_call (fun _ => policy_verdict) (fun _ _ => CVData 1) (fun _ _ => CVData 2) (CVCallable c) [].
+
+(* What running a callable runs inside: a wrapper object built by the host (functools.partial(f),
+   a closure) is itself unmarked and runs f.  [ran runs_inside log]: everything that ran. *)
+Definition ran (runs_inside : callable -> list callable) (l : list event) : list callable :=
+  flat_map (fun e => match e with EvInvoke c => c :: runs_inside c | _ => [] end) l.
